@@ -468,3 +468,10 @@ def x20(cx: Cx, ob: Ob) -> None:
 
     check_expand_wrappers(cx, ob)
     check_expand_reference(cx, ob)
+
+
+@obligation("C17-X5", "pairing (shared with C05-D4): every normally returning path of add_record merges or appends and then unconditionally re-indexes the changed record - the resolver looks prefixes up in prefix_map, which must not lag behind the records after a merge", floor=2)
+def x5(cx: Cx, ob: Ob) -> None:
+    from .c05 import check_add_record_pairing
+
+    check_add_record_pairing(cx, ob)
